@@ -434,6 +434,11 @@ def contract_files():
 
 
 def run_for_property(pid, repo, tier, seed, jobs=None):
+    global MEM_CAP_KB
+    if tier == 'thorough' and 'VERIF_KANI_HARNESS_TIMEOUT' not in os.environ:
+        KANI_FLAGS[-1] = '2400s'      # the thorough harnesses enumerate 2^32 operand pairs: minutes each, more under load
+    if tier == 'thorough' and 'VERIF_KANI_MEM_KB' not in os.environ:
+        MEM_CAP_KB = 28 * 1024 * 1024  # measured: k_divint__int peaks at 10.8 GB resident (the quick cap is 10 GB of address space)
     with kani_lock():
         return _run_for_property(pid, repo, tier, seed, jobs)
 
@@ -472,7 +477,7 @@ def _run_for_property(pid, repo, tier, seed, jobs=None):
     names = [n for n, _ in sel]
     if jobs is None:
         jobs = int(os.environ.get('VERIF_KANI_JOBS', '8'))
-    r = run_harnesses(names, jobs=jobs, timeout=int(os.environ.get('VERIF_KANI_TIMEOUT', '2400')))
+    r = run_harnesses(names, jobs=jobs, timeout=int(os.environ.get('VERIF_KANI_TIMEOUT', '7200' if tier == 'thorough' else '2400')))
     out['cmds'].append('(cd build/kani && cargo kani %s -j %d --harness <%d harnesses>)' % (
         ' '.join(KANI_FLAGS), jobs, len(names)))
     out['solver_s']['kani:wall'] = round(r['wall_s'], 1)
@@ -482,8 +487,13 @@ def _run_for_property(pid, repo, tier, seed, jobs=None):
         st = r['results'].get(n, 'undecided')
         kind = hm.get('kind', 'complete')
         if st == 'fail':
-            one = run_single(n, playback=not hm.get('enum'))
-            if one['status'] != 'fail':
+            one = run_single(n, playback=not hm.get('enum'), timeout=3000 if tier == 'thorough' else 1800)
+            if one['status'] == 'ok':
+                # CBMC is deterministic: a failure under `-j N` that does not reproduce alone is a resource
+                # artefact of the batch (per-harness timeout or memory cap under load); the run alone decides
+                st = 'ok'
+                out.setdefault('notes', []).append('kani harness %s: resource failure in the batch, verified alone' % n)
+            elif one['status'] != 'fail':
                 st = 'undecided'
                 out['undecided'].append('kani harness %s: failed in the batch but not alone (%s)' % (n, one['status']))
             else:
